@@ -29,6 +29,7 @@ type entry struct {
 	glab  string // goroutine label
 	ch    chan struct{}
 	low   bool // released only when nothing but background work is runnable
+	gid   int64
 }
 
 type Violation = rt.Violation
@@ -161,9 +162,28 @@ func (s *Sim) Preexisting(gid int64) bool { return s.baseline[gid] }
 // scheduling points are pass-through, so leftovers finish on their own.
 func (s *Sim) Close() {
 	s.mu.Lock()
+	// A goroutine that is blocked for good inside a region holding a cache
+	// mutex (not parked at an R8 point: blocked in the code under test) keeps
+	// that mutex for ever. Releasing the others would send them into a real
+	// sync.Mutex.Lock that never returns, which is not a durable block: the
+	// bubble would never be quiescent again. They stay parked instead (their
+	// run has been judged - "nothing runnable" - and later runs treat them as
+	// foreign).
+	wedged := false
+	for gid := range s.liveHolders() {
+		isParked := false
+		for _, e := range s.parked {
+			isParked = isParked || e.gid == gid
+		}
+		wedged = wedged || !isParked
+	}
 	s.closed = true
 	p := s.parked
 	s.parked = nil
+	if wedged {
+		s.Probes["r8_mutex_holder_blocked_for_ever"]++
+		p = nil
+	}
 	s.mu.Unlock()
 	for _, e := range p {
 		close(e.ch)
@@ -456,7 +476,7 @@ func (s *Sim) parkX(glabel, point string, isYield, low bool) {
 			return // not a goroutine of this simulation
 		}
 	}
-	e := &entry{label: glabel + "@" + point, glab: glabel, ch: make(chan struct{}), low: low}
+	e := &entry{label: glabel + "@" + point, glab: glabel, ch: make(chan struct{}), low: low, gid: gid}
 	s.parked = append(s.parked, e)
 	s.mu.Unlock()
 	<-e.ch
@@ -590,12 +610,44 @@ func (s *Sim) Run() RunResult { return s.loop(false) }
 // Drain schedules until nothing is parked any more (background work done).
 func (s *Sim) Drain() RunResult { return s.loop(true) }
 
+// liveHolders lists the goroutines of live instances that hold a cache mutex
+// at this quiescent point: parked at an R8 point (YieldHeld) or durably
+// blocked inside the region (a channel operation). Caller holds s.mu.
+func (s *Sim) liveHolders() map[int64]bool {
+	var out map[int64]bool
+	for gid, n := range s.held {
+		if n <= 0 {
+			continue
+		}
+		l, ok := s.labels[gid]
+		if a, isAlias := s.alias[gid]; isAlias {
+			l = a
+		}
+		if !ok || l == "" || s.isDead(l) {
+			continue
+		}
+		if out == nil {
+			out = map[int64]bool{}
+		}
+		out[gid] = true
+	}
+	return out
+}
+
 func (s *Sim) candidates() []*entry {
 	var c []*entry
+	// While somebody holds a cache mutex only the holder itself and the
+	// background remover (which never takes the mutex) may proceed: anybody
+	// else might block on the real sync.Mutex, which is not a durable block.
+	holders := s.liveHolders()
 	for _, e := range s.parked {
-		if !s.isDead(e.glab) {
-			c = append(c, e)
+		if s.isDead(e.glab) {
+			continue
 		}
+		if holders != nil && !holders[e.gid] && !isRemover(e.glab) {
+			continue
+		}
+		c = append(c, e)
 	}
 	sort.SliceStable(c, func(i, j int) bool { return c[i].label < c[j].label })
 	for i := 1; i < len(c); i++ {
@@ -620,18 +672,27 @@ func (s *Sim) loop(drain bool) RunResult {
 		Progress.Add(1)
 		synctest.Wait()
 		s.flushNotes()
-		if s.StepHook != nil {
+		s.mu.Lock()
+		inRegion := s.liveHolders() != nil
+		s.mu.Unlock()
+		if s.StepHook != nil && !inRegion {
+			// (the oracles take the cache mutex themselves)
 			s.StepHook(s)
 		}
 		s.mu.Lock()
 		live := s.liveTasks()
 		c := s.candidates()
 		s.mu.Unlock()
-		if !drain && live == 0 {
+		if inRegion {
+			s.mu.Lock()
+			s.Probes["r8_point_inside_mutex_region"]++
+			s.mu.Unlock()
+		}
+		if !drain && live == 0 && !inRegion {
 			return Done
 		}
 		if len(c) == 0 {
-			if drain && live == 0 {
+			if drain && live == 0 && !inRegion {
 				return Quiesced
 			}
 			// Nothing runnable: let simulated time pass (pollers, timers).
@@ -643,7 +704,10 @@ func (s *Sim) loop(drain bool) RunResult {
 			return Hung
 		}
 		idle = 0
-		if s.StopAt > 0 && s.Steps+1 >= s.StopAt {
+		if s.StopAt > 0 && s.Steps+1 >= s.StopAt && !inRegion {
+			// (a stop - the kill of the crash scenarios - never lands inside
+			// a region that holds the cache mutex: no file-system step
+			// separates it from the region's end)
 			return Stopped
 		}
 		if s.Steps >= s.StepCap {
@@ -802,6 +866,29 @@ func (s *Sim) Now() int {
 // while the goroutine holds a cache mutex (a goroutine must never park
 // holding it: sync.Mutex waiters are not durably blocked).
 func (s *Sim) Yield(point string) { s.park("", point, true) }
+
+// BlockedHolder reports whether a goroutine of a live instance holds a cache
+// mutex without being parked at a scheduling point, i.e. is blocked inside
+// the region by the code under test itself. Meaningful at a quiescent point.
+func (s *Sim) BlockedHolder() bool {
+	s.mu.Lock()
+	defer s.mu.Unlock()
+	for gid := range s.liveHolders() {
+		isParked := false
+		for _, e := range s.parked {
+			isParked = isParked || e.gid == gid
+		}
+		if !isParked {
+			return true
+		}
+	}
+	return false
+}
+
+// YieldHeld is a scheduling point that also exists inside a region holding a
+// cache mutex (rule R8). While the caller is parked there holding the mutex,
+// only it and the remover are candidates (see candidates).
+func (s *Sim) YieldHeld(point string) { s.park("", point, false) }
 
 // HeldDelta tracks cache mutex ownership of the calling goroutine.
 func (s *Sim) HeldDelta(d int) { s.heldDelta(d) }
